@@ -248,7 +248,7 @@ def main(tier, seed, replay=None):
                        'socket model of Framing/Sock.v: recv returns any non-empty amount up to the request; after the peer is gone it returns b"" or raises an OSError',
                        'a peer that stays silent without closing is outside the property']
     res.trusted.append('hand-written environment model Framing/Sock.v (socket, struct.pack/unpack) and entry points Framing/Run.v')
-    proved = core.prove(res, PROP, UNITS, PROOFS)
+    proved = core.prove(res, PROP, UNITS, PROOFS, run_files=['theories/Framing/Run.v'])
     gen_ok = not any(w.startswith('translator:') for w, _ in res.tie_broken)
 
     rnd = random.Random(seed)
